@@ -1,10 +1,10 @@
 #!/bin/bash
-# evalbatch2.sh <P> : evaluate /tmp/w2-<P>/mut{C,D,E}.patch against check <P>
+# evalbatch2.sh <P> : evaluate /tmp/${WAVE:-w2}-<P>/mut{C,D,E}.patch against check <P>
 p=$1; shift
 for m in C D E; do
-  if [ -f /tmp/w2-$p/mut$m.patch ]; then
+  if [ -f /tmp/${WAVE:-w2}-$p/mut$m.patch ]; then
     echo "=== $p mut$m"
-    /venv/bin/python /verif/tools/evalmut.py /tmp/w2-$p/mut$m.patch /tmp/w2-$p/demo$m.py $p "$@" 2>&1 | /venv/bin/python -c "
+    /venv/bin/python /verif/tools/evalmut.py /tmp/${WAVE:-w2}-$p/mut$m.patch /tmp/${WAVE:-w2}-$p/demo$m.py $p "$@" 2>&1 | /venv/bin/python -c "
 import sys,json
 t=sys.stdin.read()
 try:
